@@ -50,10 +50,10 @@ type loopClient struct {
 	fn    string
 	loops map[ast.Stmt]int // unbounded loops of this function -> ordinal
 	// summary mode: collect the net consumption at each return
-	retMin    int
-	retSeen   bool
+	retMin     int
+	retSeen    bool
 	entryClass []bool // optional: the first runes the callers can enter this sub-scanner with (nil: unknown)
-	firstRune string
+	firstRune  string
 }
 
 // Inline: small loop-free helpers of the cursor (accept(kind), peek(), isKeyword(...)) are interpreted in place, so
